@@ -1250,6 +1250,25 @@ class Interp:
             return SeqVal(kind, list(v.items))
         return Sym(f"{kind}({v.key()})", TypeRef(prim=f"ext:builtins.{kind}"))
 
+    def b_zip(self, node, frame):
+        vals = [self.eval(a, frame) for a in node.args]
+        if vals and all(isinstance(v, SeqVal) for v in vals):
+            n = min(len(v.items) for v in vals)
+            return SeqVal("list", [SeqVal("tuple", [v.items[i] for v in vals]) for i in range(n)])
+        return Sym(f"zip({','.join(v.key() for v in vals)})")
+
+    def b_enumerate(self, node, frame):
+        v = self.eval(node.args[0], frame)
+        if isinstance(v, SeqVal):
+            return SeqVal("list", [SeqVal("tuple", [Const(i), x]) for i, x in enumerate(v.items)])
+        return Sym(f"enumerate({v.key()})")
+
+    def b_reversed(self, node, frame):
+        v = self.eval(node.args[0], frame)
+        if isinstance(v, SeqVal):
+            return SeqVal("list", list(reversed(v.items)))
+        return Sym(f"reversed({v.key()})")
+
     def b_all(self, node, frame):
         v = self.eval(node.args[0], frame)
         if isinstance(v, SeqVal) and all(isinstance(i, Const) for i in v.items):
